@@ -1,7 +1,8 @@
 //! Monitors: the oracles evaluated after every step of a pool history.
 use std::collections::{BTreeMap, BTreeSet};
 
-use cosmwasm_std::coin;
+use cosmwasm_std::{coin, Decimal};
+use mantra_dex_std::pool_manager as pm;
 use num_bigint::BigUint;
 use num_traits::Zero;
 
@@ -767,10 +768,51 @@ fn protection_error(e: &str) -> bool {
         || e.contains("division by zero")
 }
 
+/// Would the documented price protection refuse this swap, judged from the figures of the quote
+/// alone (no wording involved)? None = within a few units / 2e-18 of the threshold.
+pub fn protection_refuses(q: &pm::SimulationResponse, offer: u128, slip: Option<Decimal>, belief: Option<Decimal>) -> Option<bool> {
+    let dec18 = big(1_000_000_000_000_000_000);
+    let tol = big(slip.map(|d| d.atomics().u128()).unwrap_or(10_000_000_000_000_000).min(500_000_000_000_000_000));
+    let ret = big(q.return_amount.u128());
+    if let Some(b) = belief {
+        let b = big(b.atomics().u128());
+        if b.is_zero() {
+            return Some(true);
+        }
+        // refused iff return < expected and (expected - return)/expected > tol, expected = offer / belief
+        let expected = big(offer) * &dec18 / &b;
+        let thr = &expected * (&dec18 - &tol) / &dec18; // the smallest acceptable return, roughly
+        if &ret + big(3) < thr {
+            Some(true)
+        } else if ret > &thr + big(3) {
+            Some(false)
+        } else {
+            None
+        }
+    } else {
+        let spread = big(q.slippage_amount.u128());
+        let den = &ret + &spread;
+        if den.is_zero() {
+            return Some(true);
+        }
+        // refused iff spread / (return + spread) > tol
+        let l = &spread * &dec18;
+        let r = &tol * &den;
+        let band = big(2) * &den;
+        if l > &r + &band {
+            Some(true)
+        } else if &l + &band < r {
+            Some(false)
+        } else {
+            None
+        }
+    }
+}
+
 pub fn mon_c12(_sim: &Sim, step: &Step, st: &mut Stats) -> Result<(), String> {
     let d = step.describe();
     match (&step.kind, &step.quote) {
-        (Kinded::Swap { pool, offer, ask, receiver, .. }, Some(Quote::Swap(q))) => match (q, &step.result) {
+        (Kinded::Swap { pool, offer, ask, receiver, slip, belief }, Some(Quote::Swap(q))) => match (q, &step.result) {
             (Ok(q), Ok(_)) => {
                 let p0 = &step.pre.pools[pool];
                 let p1 = &step.post.pools[pool];
@@ -832,6 +874,11 @@ pub fn mon_c12(_sim: &Sim, step: &Step, st: &mut Stats) -> Result<(), String> {
                 if q.return_amount.is_zero() {
                     // a swap that would deliver nothing may be refused: nothing is produced either way
                     st.bump("c12: quoted zero output, swap refused");
+                } else if !step.pre.pools[pool].swaps_enabled {
+                    st.bump("c12: quoted, swaps switched off");
+                } else if protection_refuses(q, offer.amount.u128(), *slip, *belief) == Some(true) {
+                    // decided from the quote's own figures: the documented protection refuses this trade
+                    st.bump("c12: quoted, rejected by a protection");
                 } else if !protection_error(e) {
                     return Err(format!("[C12] {d}: Simulation quoted {:?} but the swap failed for a reason other than a price protection or a switch: {e}", q));
                 } else {
@@ -840,7 +887,7 @@ pub fn mon_c12(_sim: &Sim, step: &Step, st: &mut Stats) -> Result<(), String> {
             }
             (Err(_), Err(_)) => st.bump("c12: quote and swap both refused"),
         },
-        (Kinded::Route { hops, offer, receiver, simple, .. }, Some(Quote::Route(q))) => {
+        (Kinded::Route { hops, offer, receiver, simple, min, slip }, Some(Quote::Route(q))) => {
             if !*simple {
                 st.bump("c12: route revisits a pool (outside the property)");
                 return Ok(());
@@ -883,8 +930,35 @@ pub fn mon_c12(_sim: &Sim, step: &Step, st: &mut Stats) -> Result<(), String> {
                     st.bump("c12: sender cannot pay the offer");
                 }
                 (Ok(q), Err(e)) => {
+                    // judged from the state and the figures first, from the wording last: a switched-off
+                    // pool on the route, a minimum above the quote, or a hop whose own Simulation
+                    // figures make the documented protection refuse (the refused route left the state
+                    // as it was, so the hops can be quoted one by one now)
+                    let switched_off = hops.iter().any(|h| step.pre.pools.get(&h.pool).map(|p| !p.swaps_enabled).unwrap_or(false));
+                    let below_min = min.map(|m| m > q.return_amount.u128()).unwrap_or(false);
+                    let hop_refuses = {
+                        let mut a = offer.amount.u128();
+                        let mut refuses = false;
+                        for h in hops.iter() {
+                            match _sim.w.simulate(&h.pool, coin(a, &h.denom_in), &h.denom_out) {
+                                Ok(hq) => {
+                                    if protection_refuses(&hq, a, *slip, None) == Some(true) {
+                                        refuses = true;
+                                        break;
+                                    }
+                                    a = hq.return_amount.u128();
+                                }
+                                Err(_) => break,
+                            }
+                        }
+                        refuses
+                    };
                     if q.return_amount.is_zero() {
                         st.bump("c12: quoted zero output, route refused");
+                    } else if switched_off {
+                        st.bump("c12: quoted, swaps switched off");
+                    } else if below_min || hop_refuses {
+                        st.bump("c12: quoted, rejected by a protection");
                     } else if !protection_error(e) {
                         return Err(format!("[C12] {d}: SimulateSwapOperations quoted {} but the route failed for a reason other than a price protection or a switch: {e}", q.return_amount));
                     } else {
